@@ -53,6 +53,8 @@ func init() {
 		"(reflect.Value).NumMethod":       ext۰reflect۰Value۰NumMethod,
 		"(reflect.Value).Pointer":         ext۰reflect۰Value۰Pointer,
 		"(reflect.Value).Set":             ext۰reflect۰Value۰Set,
+		"(reflect.Value).CanSet":          ext۰reflect۰Value۰CanSet,
+		"reflect.Indirect":                ext۰reflect۰Indirect,
 		"(reflect.Value).String":          ext۰reflect۰Value۰String,
 		"(reflect.Value).Type":            ext۰reflect۰Value۰Type,
 		"(reflect.Value).Uint":            ext۰reflect۰Value۰Uint,
